@@ -76,6 +76,25 @@ fn make_text(input: &TextIn) -> String {
     s
 }
 
+/// A conversion that was refused must leave nothing behind: before one case in four, the same thread is made to
+/// join (and to read the attributes of) a record holding octets that are not UTF-8, whatever that returns.
+fn refused_conversion_first(selector: usize, case: &mut Case) -> Result<(), Fail> {
+    if selector % 4 != 1 {
+        return Ok(());
+    }
+    case.class("after-a-refused-conversion");
+    let junk: &[u8] = if selector % 8 == 1 { &[b'k', b'=', 0xff, 0xfe] } else { &[0xc3, b';', b'a', b'=', 0x80] };
+    lib("refused conversions", || {
+        if let Ok(cs) = CharacterString::new(junk) {
+            let mut t = TXT::new();
+            t.add_char_string(cs);
+            let _ = t.clone().long_attributes();
+            let _ = t.attributes();
+            let _ = String::try_from(t);
+        }
+    })
+}
+
 fn check_text(input: &TextIn, case: &mut Case) -> Result<(), Fail> {
     let s = make_text(input);
     let bytes = s.as_bytes();
@@ -88,6 +107,7 @@ fn check_text(input: &TextIn, case: &mut Case) -> Result<(), Fail> {
     if crosses(254) || crosses(255) {
         case.class("char-across-boundary");
     }
+    refused_conversion_first(bytes.len() + input.1.len(), case)?;
     let txt = lib("TXT::try_from(&str)", || TXT::try_from(s.as_str()))?.map_err(|e| Fail::new("c19:split-failed", format!("TXT::try_from({} bytes) = {:?}", bytes.len(), e)))?;
     let back = lib("String::try_from(TXT)", || String::try_from(txt.clone()))?;
     match back {
@@ -261,6 +281,7 @@ fn check_long(s: &String, case: &mut Case) -> Result<(), Fail> {
     if s.len() > 254 {
         case.class("multi-piece");
     }
+    refused_conversion_first(s.len(), case)?;
     let txt = lib("TXT::try_from(&str)", || TXT::try_from(s.as_str()))?.map_err(|e| Fail::new("c19:split-failed", format!("{:?}", e)))?;
     let got = lib("TXT::long_attributes", || txt.long_attributes())?.map_err(|e| Fail::new("c19:long-failed", format!("{:?}", e)))?;
     let want = ref_long(s);
